@@ -303,8 +303,7 @@ theorem blockOn_inv {s : State} (hi : Inv s) (t : TaskId) (hc : s.ctx = .inTask 
   have hW : (s.futs f).cbs.count (.wake t) = 0 := List.count_eq_zero.mpr (hnoreg f)
   use_inv hi
   constructor <;>
-    simp only [blockOn, setTask, setFut, H, W, isBlocked, List.count_append, List.count_singleton,
-      List.mem_append, List.mem_singleton] at * <;>
+    simp only [blockOn, setTask, setFut, H, W, isBlocked] at * <;>
     grind
 
 theorem endStep_inv {s : State} (hi : Inv s) (t : TaskId) (hc : s.ctx = .inTask t) (a : Act) :
@@ -567,5 +566,26 @@ theorem run_inv {s : State} (hi : Inv s) (evs : List Event) : Inv (run s evs) :=
 theorem reachable_inv {s : State} (h : Reachable s) : Inv s := by
   obtain ⟨evs, rfl⟩ := h
   exact run_inv inv_init evs
+
+theorem readyFind_iff_H {s : State} {t : TaskId} : readyFind s t = true ↔ 0 < H s t := by
+  simp [readyFind, H, List.countP_pos_iff]
+
+theorem mem_readyTasks {s : State} {t : TaskId} : t ∈ readyTasks s ↔ 0 < H s t := by
+  simp only [readyTasks, List.mem_filterMap, H, List.countP_pos_iff, isOf]
+  constructor
+  · rintro ⟨a, ha, hf⟩; exact ⟨a, ha, by simp [hf]⟩
+  · rintro ⟨a, ha, hf⟩; exact ⟨a, ha, by simpa using hf⟩
+
+theorem mem_allTasks {s : State} (hi : Inv s) {t : TaskId} :
+    t ∈ allTasks s ↔ (s.tasks t).done = false := by
+  simp only [allTasks, List.mem_filter, List.mem_range]
+  constructor
+  · rintro ⟨_, h⟩; simpa using h
+  · intro h
+    refine ⟨?_, by simp [h]⟩
+    apply Nat.lt_of_not_le
+    intro hle
+    have := hi.fresh t hle
+    rw [h] at this; cases this
 
 end Asynkit.Kernel
